@@ -98,6 +98,8 @@ func Base(ep, vr, user, col string) (*Req, error) {
 		r.Body = Obj("points", Arr(Obj("_id", Str(freshID(tag, 0)), "one", Floats(3.5), "max", bigVec(4096, 5))))
 	case "v2.insert:quant":
 		r.Body = Obj("points", Arr(Obj("_id", Str(freshID(tag, 0)), "h", bigVec(16, 2), "g", Floats(51.5, -0.12))))
+	case "v2.insert:stray":
+		r.Body = Obj("points", Arr(Obj("_id", Str(freshID(tag, 0)), "emb", Floats(0.5, 1.5))))
 	case "v2.insert:quotafull":
 		r.Body = Obj("points", Arr(Obj("_id", Str(freshID(tag, 0)), "str", Str("x"))))
 	case "v2.insert:toolarge":
